@@ -380,6 +380,7 @@ type history struct {
 	// live SELECTs during which (between the hooks around the snapshot) some
 	// commit became visible
 	commitInWindow int64
+	inflight       int64 // compute functions entered and not yet returned
 
 	queries []*liveQuery
 	byID    map[int]*liveQuery
@@ -391,14 +392,19 @@ func (h *history) activity() int64 {
 
 // perturb delays the calling goroutine a little (seeded), to vary where
 // snapshots fall relative to commits and event delivery.
-func (h *history) perturb() {
+func (h *history) perturb(after bool) {
 	h.hookMu.Lock()
-	x := h.hookR.Intn(10)
+	x := h.hookR.Intn(20)
 	d := time.Duration(h.hookR.Intn(400)) * time.Microsecond
+	if after && x >= 18 {
+		// occasionally hold the reader between its snapshot and its return long
+		// enough for a commit to be delivered and processed in between
+		d = time.Duration(1000+h.hookR.Intn(2000)) * time.Microsecond
+	}
 	h.hookMu.Unlock()
 	switch {
-	case x < 4:
-	case x < 6:
+	case x < 8:
+	case x < 12:
 		for k := 0; k < 3; k++ {
 			time.Sleep(0)
 		}
@@ -756,11 +762,11 @@ func runHistory(run *vlib.Run, i int, fixed *fixedPlan) {
 					q.mu.Unlock()
 				}
 			}
-			h.perturb()
+			h.perturb(false)
 		},
 		AfterSnapshot: func(st *fakesql.Stmt) {
 			atomic.AddInt64(&h.hookEvents, 1)
-			h.perturb()
+			h.perturb(true)
 			if id, ok := st.Tag.(int); ok {
 				if q := h.byID[id]; q != nil {
 					q.mu.Lock()
@@ -814,6 +820,8 @@ func runHistory(run *vlib.Run, i int, fixed *fixedPlan) {
 		qs := perRerunner[k]
 		rr := reactive.NewRerunner(bg, func(ctx context.Context) (interface{}, error) {
 			atomic.AddInt64(&h.computeRuns, 1)
+			atomic.AddInt64(&h.inflight, 1)
+			defer atomic.AddInt64(&h.inflight, -1)
 			for _, q := range qs {
 				res := runQuery(fakesql.WithTag(ctx, q.id), h.ldb, q.table, q.row, q.fd.filter)
 				q.mu.Lock()
@@ -885,7 +893,38 @@ func runHistory(run *vlib.Run, i int, fixed *fixedPlan) {
 	}
 	runsAtEnd := atomic.LoadInt64(&h.computeRuns)
 	outcome := vlib.WaitCond(cond, h.activity, 400*time.Millisecond, 20*time.Second)
+	if outcome == vlib.QuiescentNot {
+		// stuck or slow? confirm with a second, independent observation window
+		switch vlib.WaitCond(cond, h.activity, 0, 10*time.Second) {
+		case vlib.Reached:
+			outcome = vlib.Reached
+			run.Count("converged_only_in_confirmation_window", 1)
+		case vlib.Undecided:
+			outcome = vlib.Undecided
+		}
+	}
 	rerunsAfter := atomic.LoadInt64(&h.computeRuns) - runsAtEnd
+	// the verdict is taken now, before anything is torn down
+	type staleQuery struct {
+		q    *liveQuery
+		last *result
+		runs int
+		snap int64
+	}
+	var stale []staleQuery
+	if outcome == vlib.QuiescentNot {
+		for _, q := range h.queries {
+			q.mu.Lock()
+			if !sameResult(q.last, want[q.id]) {
+				stale = append(stale, staleQuery{q, q.last, q.runs, q.resultSnap})
+			}
+			q.mu.Unlock()
+		}
+	}
+	stuck := ""
+	if n := atomic.LoadInt64(&h.inflight); n > 0 && outcome == vlib.QuiescentNot {
+		stuck = fmt.Sprintf("%d compute function(s) in flight at the verdict; goroutines: %s", n, vlib.Trunc(strings.Join(vlib.ThunderGoroutines(), "\n---\n"), 6000))
+	}
 
 	for _, rr := range rerunners {
 		rr.Stop()
@@ -953,20 +992,21 @@ func runHistory(run *vlib.Run, i int, fixed *fixedPlan) {
 	sort.Strings(fk)
 	run.Case(fmt.Sprintf("history|rerunners=%d|writers=%d|%s|faults=%s|alter=%s", nRerunners, nWriters, strings.Join(shapes, ";"), strings.Join(fk, ","), schemaChange), nEvents > 0 && rerunsAfter+runsAtEnd > int64(nRerunners))
 
-	witness := func(q *liveQuery, what string) map[string]interface{} {
-		q.mu.Lock()
-		last, runs, snap := q.last, q.runs, q.resultSnap
-		q.mu.Unlock()
+	witness := func(sq staleQuery, what string) map[string]interface{} {
 		var fs []string
 		for _, f := range faults {
 			fs = append(fs, f.event)
 		}
-		return map[string]interface{}{
-			"what": what, "history": i, "query": q.describe(), "holds": last.String(), "database_returns": want[q.id].String(),
-			"query_runs": runs, "commits_visible_to_its_last_select": snap, "commits_total": atomic.LoadInt64(&h.commits),
+		w := map[string]interface{}{
+			"what": what, "history": i, "query": sq.q.describe(), "holds": sq.last.String(), "database_returns": want[sq.q.id].String(),
+			"query_runs": sq.runs, "commits_visible_to_its_last_select": sq.snap, "commits_total": atomic.LoadInt64(&h.commits),
 			"events": eventLog, "undecodable_events": fs, "decode_failures_logged": decodeErrors,
 			"reruns_after_last_delivery": rerunsAfter, "protocol": proto,
 		}
+		if stuck != "" {
+			w["stuck"] = stuck
+		}
+		return w
 	}
 	switch outcome {
 	case vlib.Reached:
@@ -976,29 +1016,21 @@ func runHistory(run *vlib.Run, i int, fixed *fixedPlan) {
 	case vlib.Undecided:
 		run.Inconclusive(fmt.Sprintf("history %d: still active after 20s (%d re-runs after the last delivery)", i, rerunsAfter))
 	case vlib.QuiescentNot:
-		for _, q := range h.queries {
-			q.mu.Lock()
-			ok := sameResult(q.last, want[q.id])
-			snap := q.resultSnap
-			q.mu.Unlock()
-			if ok {
-				continue
-			}
+		for _, sq := range stale {
 			cls := ""
-			if len(decodeErrors) > 0 {
+			if len(decodeErrors) > 0 && stuck == "" {
 				for _, f := range faults {
-					if f.table == q.table && f.commitIdx > snap {
+					if f.table == sq.q.table && f.commitIdx > sq.snap {
 						cls = "binlog-decode-failure-dropped"
 					}
 				}
 			}
 			run.Count("stale:"+orUnclassified(cls), 1)
 			if fixed != nil {
-				w := witness(q, "pinned reproducer "+fixed.name+": live query is stale at quiescence")
-				run.Violation(-1, cls, w)
+				run.Violation(-1, cls, witness(sq, "pinned reproducer "+fixed.name+": live query is stale at quiescence"))
 				continue
 			}
-			run.Violation(i, cls, witness(q, "live query is stale at quiescence: it does not hold the rows the database returns for its filter"))
+			run.Violation(i, cls, witness(sq, "live query is stale at quiescence: it does not hold the rows the database returns for its filter"))
 		}
 	}
 	if run.WantSample() && nEvents > 0 {
